@@ -3,6 +3,7 @@
 import sys, os, argparse
 sys.path.insert(0, os.path.dirname(__file__))
 from universe import Universe
+sys.path.insert(0, os.path.join(os.path.dirname(os.path.dirname(os.path.abspath(__file__))), 'vlib'))
 
 def main():
     ap = argparse.ArgumentParser()
@@ -11,8 +12,8 @@ def main():
     ap.add_argument('--rust-out', required=True)
     ap.add_argument('--types-out', required=True)
     a = ap.parse_args()
-    n_types, depth, n_defs = (44, 3, 12) if a.tier == 'quick' else (120, 4, 30)
-    u = Universe(a.seed, n_types=n_types, max_depth=depth, n_defs=n_defs).build()
+    import core
+    u = core.build_universe(a.seed, a.tier)
     src = u.rust_source()
     old = open(a.rust_out).read() if os.path.exists(a.rust_out) else None
     if old != src:
